@@ -634,7 +634,7 @@ class Data(Field):
 
         extra_count = 0
         if until_marker.pattern == b"$":  # shortcut
-            count = len(raw) - offset
+            count = max(len(raw) - offset, 0)
         else:
             match = until_marker.search(
                 search_buffer, 0
